@@ -249,4 +249,6 @@ func runC14(e *Engine, r *Report) {
 	_ = strings.Contains
 	// deferred close/sync errors reach the caller (generic.go)
 	ruleDeferredErr(e, r, 1, "internal/rsm")
+	// io.Writer implementations on the snapshot path only read what they are given (generic.go)
+	ruleWriterParam(e, r, 3, "internal/rsm", "internal/utils/dio", "internal/transport", "")
 }
